@@ -338,11 +338,15 @@ def check_C14(tier, seed):
         reader_histories(rep, tier, seed + 1001, "c14s_", True, 6, 400, scan=3)
         writer_histories(rep, tier, seed + 1000, "c14w_", 4, 300, big=False)
         roundtrip_runs(rep, seed + 30, "c14rt_", 8, 150, specs=("Trace_Render",))
+        parser_runs(rep, "sched", seed + 31, "c14p_", 6, 40, parsers="btor2,cnf,aig")
     else:
+        parser_runs(rep, "sched", seed + 31, "c14p_", 14, 400, parsers="btor2,cnf,aig")
         roundtrip_runs(rep, seed + 30, "c14rt_", 12, 1500, specs=("Trace_Render",))
         reader_histories(rep, tier, seed + 1000, "c14r_", True, 14, 6000, ops=60, maxlen=96)
         reader_histories(rep, tier, seed + 1001, "c14s_", True, 14, 4000, ops=60, maxlen=96, scan=3)
         writer_histories(rep, tier, seed + 1000, "c14w_", 6, 4000, big=False)
+    # the scanners' multi-byte loads: systematic vectors with exactly k bytes buffered around every 8-byte boundary
+    scan_vectors(rep, tier, seed + 32)
     rep.cov["rule"] = ("model: IndexSafe (pos_in_buf + valid_len <= buf.len(), the precondition of every get_unchecked) and "
                        "LenLeCap on the design models, with the panicking calls (advance past the buffer, source overrun) as "
                        "actions that must leave every variable unchanged; traces: the C02/C11 histories extended with "
@@ -526,6 +530,8 @@ def check_C05(tier, seed):
     else:
         parser_runs(rep, "robust", seed, "c05d_", 14, 12000)
         parser_runs(rep, "robust", seed + 1, "c05r_", 14, 12000, release=True)
+    # the complete single-byte mutation neighbourhood of documents reaching every section (AIGER, BTOR2): no panic
+    ref_neighbourhood(rep, seed + 2, "c05n_", specs=("Trace_Contract",))
     rep.cov["rule"] = ("grammar-generated, seed, mutated (byte flips, truncation, huge numerals, invalid UTF-8, over-long "
                        "varints, duplicated/deleted lines) and arbitrary inputs through all parsers and literal types incl. "
                        "the whole-file AIGER API, dev build (overflow + debug assertions) and release build; a panic is a "
@@ -743,12 +749,24 @@ def mc_dimacs(rep, tier):
     return res
 
 
+def _neighbourhood_docs():
+    """the documents of MC_RefTotal / `vh parsers --mode neigh`, counted the way the harness enumerates them"""
+    v = json.load(open(os.path.join(vlib.ROOT, "harness", "data", "neighbourhood.json")))
+    a = len(v["alphabet"])
+    n = 0
+    for f in ("aag", "aig", "btor2"):
+        for b in v[f]:
+            k = len(b)
+            n += 1 + k * a + (k + 1) * a + k + (k + 1)
+    return range(n)
+
+
 def ref_neighbourhood(rep, seed, prefix, specs=("Trace_AigerRef", "Trace_Btor2Ref")):
     """MC_RefTotal (the reference readings are total and well formed on every single-byte mutation of documents reaching every
     section) and the same neighbourhood, all of it, fed to the real parsers and held to the references."""
     res = tlc_mc("mc_reftotal", "MC_RefTotal", "MC_RefTotal.cfg", timeout=1800, coverage=False)
     mc_must_pass(rep, res, "MC_RefTotal")
-    total = 11895
+    total = len(_neighbourhood_docs())
     shards = 12
     parser_runs(rep, "neigh", seed, prefix, shards, (total + shards - 1) // shards, specs=specs)
     rep.cov["mutation_neighbourhood"] = ("%d documents: three ASCII AIGER, three binary AIGER and one BTOR2 document that reach every "
